@@ -1425,6 +1425,10 @@ class Engine:
                         d[k] = I(lin.var(s))
                     elif k and k[-1] in ("$len", "$discr"):
                         s = self.named(("phi", fr.id, h, root, k), (0, ISIZE_MAX) if k[-1] == "$len" else (0, 1 << 16))
+                        if old is None:
+                            lz = self.lazy_init(root, k, None)
+                            if lz[0] == "i":
+                                self.link(lin.var(s), lz[1])
                         d[k] = I(lin.var(s))
                     elif sti is not None and self.prog.types[sti]["k"] in ("int", "bool", "char"):
                         s = self.named(("phi", fr.id, h, root, k), self.type_range(sti))
